@@ -82,6 +82,13 @@ func (r *run) emitInit(runId int) {
 // after a node step: write the line, route what the node sent.
 func (r *run) record(n *cnode, ev string, msg obj, extra obj) {
 	cl := r.cl
+	if n.wedged {
+		r.out.emit(obj{"ev": "wedged", "n": idName(n.idx), "on": ev, "msg": msg})
+		r.events++
+		r.stats["wedged"]++
+		r.beyond = true
+		return
+	}
 	sent := []obj{}
 	for _, s := range n.sends {
 		to := []string{}
@@ -182,6 +189,11 @@ func (r *run) probeSends(n *cnode, sends []sendRec) {
 				}
 				pre := c.nodeState()
 				c.deliver(s.raw)
+				if c.wedged {
+					r.out.emit(obj{"ev": "wedged", "n": idName(m.idx), "on": "probe", "msg": abs})
+					c.shutdown()
+					continue
+				}
 				r.out.emit(obj{"ev": "probe", "n": idName(m.idx), "from": idName(n.idx), "msg": abs, "pre": pre, "post": c.nodeState(), "panic": c.panicked != ""})
 				c.shutdown()
 				r.probes++
